@@ -12,7 +12,7 @@ from mc.gen import render
 
 ID = "C14"
 LEVEL = "fault_enumeration"
-LEVEL_TEXT = ("Complete enumeration of valid generated program x every statement position (top level and inside blocks, named scopes, loop bodies, taken .if branches and bodies of applied macros; every top-level variant also with the whole program in an .include'd file) x 26 classes of definite error "
+LEVEL_TEXT = ("Complete enumeration of valid generated program x every statement position (top level and inside blocks, named scopes, loop bodies, taken .if branches and bodies of applied macros; every top-level variant also with the whole program in an .include'd file) x 44 classes of definite error "
               "(bad character, bad size suffix, bad index register, unterminated string, unterminated comment, missing closing brace, "
               "stray token, undefined symbol in an operand / in data, undefined macro, too few macro arguments, addressing mode or "
               "width the mnemonic lacks, branch out of range, *= to an unmapped bank, missing .include/.incbin/.table/.include_ips "
@@ -54,6 +54,25 @@ FAULTS = {
     "missing-table": ".table 'nosuchfile.tbl'",
     "missing-include-ips": ".include_ips 'nosuchfile.ips', 0",
     "text-without-table": ".text 'abc'",
+    # more syntax / evaluation error classes
+    "division-operator": ".db 8 / 2",
+    "unknown-keyword": ".bogus 1",
+    "unterminated-macro-call": "c14two(1, 2",
+    "for-missing-comma": ".for c14j := 0 3 {\n.db 1\n}",
+    "if-without-block": ".if 1\n.db 1",
+    "bad-hex-number": ".db 0xZZ",
+    "undefined-qualified-name": ".dw c14nosuchscope.value",
+    "macro-definition-without-name": ".macro (a) {\n}",
+    "map-unknown-attribute": ".map identifier=9 bogus=1",
+    "include-ips-missing-delta": ".include_ips 'blob.bin'",
+    "label-only-colon": ":",
+    "assignment-without-value": "c14x :=",
+    "operand-missing": "lda #",
+    "data-trailing-operator": ".db 1 +",
+    "unbalanced-parenthesis": ".db (1 + 2",
+    "malformed-ips-file": ".include_ips 'blob.bin', 0",
+    "splice-undefined": "{{c14nosuchblock}}",
+    "branch-to-ram": "bra 0x7e0000",
 }
 PRELUDE = [("macro", "c14two", ["p", "q"], [("data", "db", [("s", "p"), ("s", "q")])])]
 ENTRIES = ["string-api", "assemble", "assemble_as_patch", "cli-ips", "cli-sfc"]
@@ -87,7 +106,7 @@ def setup(tier, seed):
 
 
 def bound(tier):
-    return "7 base programs x every top-level and nested position x 26 error classes x 5 in-process entry points; 26 x 2 real CLI processes; controls"
+    return "7 base programs x every top-level and nested position x 44 error classes x 5 in-process entry points; 44 x 2 real CLI processes; controls"
 
 
 def base_programs():
